@@ -40,8 +40,9 @@ CONSTANTS
     EpochOrderStrict,   \* FALSE: Epoch::has_gap_with as coded (abs_diff > 1)
                         \* TRUE : a previous certificate of a later epoch is rejected (proposed fix)
     CacheSound,         \* FALSE: mithril-client verifier cache as coded
-                        \* TRUE : entries stored once the whole chain is validated, and a
-                        \*        downloaded certificate must hash to its id before a cache hit
+                        \* TRUE : proposed fix -- a link is stored only when the served previous
+                        \*        certificate hashes to its id, and a downloaded certificate must
+                        \*        hash to its id before a cache hit on it
     MaxAlter,           \* 1 or 2: field alterations per tampered certificate
     TamperFields,       \* subset of AllTamperFields used for tampering
     ForgeEpochs, ForgeKeys, ForgePars, ForgeNextAvk, ForgeNextPars,   \* domains of forged certificates
